@@ -140,7 +140,7 @@ def einsum_sites():
     """(class, field, rank of X) -> (subscripts, operand sources) for the gbasis methods of H1 / Hdiv / Hcurl"""
     sites = {}
     for rel, cls in (('skfem/element/element_h1.py', 'ElementH1'), ('skfem/element/element_hdiv.py', 'ElementHdiv'),
-                     ('skfem/element/element_hcurl.py', 'ElementHcurl')):
+                     ('skfem/element/element_hcurl.py', 'ElementHcurl'), ('skfem/element/element_matrix.py', 'ElementMatrix')):
         tree = t2.parse(rel)
         fn = t2.find_def(tree, 'gbasis', cls)
         for call in [c for c in ast.walk(fn) if isinstance(c, ast.Call) and t2.src(c.func) == 'DiscreteField']:
@@ -216,6 +216,11 @@ def generate_c09():
         parts.append(einsum_to_coq(f'gen_hdiv_value{d}', 'ijkl,jl,kl->ikl', d, ['DF', 'phi', 'c']))
         parts.append(einsum_to_coq(f'gen_hcurl_value{d}', 'ijkl,il,k->jkl', d, ['invDF', 'phi', 'orient']).replace('(orient)', 'orient'))
     parts.append(einsum_to_coq('gen_hcurl_curl3', 'ijkl,jl,kl->ikl', 3, ['DF', 'dphi', 'c']))
+    mscale = '1 / np.abs(detDF) ** 2'
+    chk(('ElementMatrix', 'value'), [('ijkl,jal,bakl,kl->ibkl', ['DF', 'phi', 'DF', mscale]),
+                                     ('ijkl,jakl,bakl,kl->ibkl', ['DF', 'phi', 'DF', mscale])])
+    parts.append(einsum_to_coq('gen_matrix_value2', 'ijkl,jal,bakl,kl->ibkl', 2, ['DF', 'phi', 'DF2', 'c']))
+    parts.append(f'Definition gen_matrix_scale (absdet : Q) : Q := {ex.tr(ast.parse(mscale, mode="eval").body)}%Q.')
     parts.append(f'Definition gen_hdiv_scale (absdet orient : Q) : Q := {ex.tr(ast.parse(scale, mode="eval").body)}%Q.')
     parts.append(f'Definition gen_hdiv_div (dphi absdet orient : Q) : Q := {ex.tr(ast.parse(divx, mode="eval").body)}%Q.')
     parts.append(f'Definition gen_hcurl_scale (detDF orient : Q) : Q := {ex.tr(ast.parse(cscale, mode="eval").body)}%Q.')
